@@ -110,6 +110,7 @@ def r_literal_guard(F, R):
     lits = []
     hits = []
     merged = {}  # push block -> blocks in which the caller's bytes are selected as the value to store
+    selectors = {}  # push block -> the Option whose being None selects the caller's bytes
     for (bi, t) in b.calls():
         if callee_tag(t.get("callee")) == ("Push", "push") and len(t["args"]) == 2:
             a = operand_tree(ctx, t["args"][1])
@@ -124,20 +125,56 @@ def r_literal_guard(F, R):
                 if sel:
                     lits.append((bi, t))
                     merged[bi] = sel
+                else:
+                    # ... or chosen by a combinator: `code.as_ref().map_or(bytes, |c| c.as_slice())`
+                    # stores the caller's bytes exactly when `code` is None
+                    from expr import nobb as _nobb
+                    na = _nobb(a)
+                    if na[0] == "call" and na[1] in (("Option", "map_or"), ("Option", "unwrap_or")) and not na[3] and \
+                            len(na[2]) >= 2 and na[2][1] == param:
+                        lits.append((bi, t))
+                        selectors[bi] = _strip_opt(na[2][0])
     R.floor("R-GUARD", "literal store sites in encode", len(lits), 1)
+    def filtered_out(f):
+        """`bytes.first().filter(|tag| self.decode.get(tag).is_some())` is None: the input is empty
+        or its first byte is unassigned -- either admits the literal"""
+        from expr import apply_fn, nobb, tproj
+        if f[0] != "variant" or not isinstance(f[1], tuple) or f[1][0] != "call" or f[1][1] != ("Option", "filter") or \
+                len(f[1][2]) != 2 or f[1][3]:
+            return False
+        if not (f[2] == "0" or (isinstance(f[2], tuple) and f[2][0] == "not" and "1" in f[2][1])):
+            return False
+        src = nobb(f[1][2][0])
+        if not (src[0] == "call" and src[1] in (("slice", "first"), ("slice", "get")) and src[2] and src[2][0] == param):
+            return False
+        res = apply_fn(F, f[1][2][1], [tproj(f[1][2][0], ("v:Some", "f:0"))])
+        return len(res) == 1 and unassigned_fact(("truthy", next(iter(res)), False), b.key)
+
     good = set()
     for bi in b.live_blocks():
         fs = facts_at(ctx, bi)
-        if any(is_empty_fact(f, b.key) or unassigned_fact(f, b.key) for f in fs):
+        if any(is_empty_fact(f, b.key) or unassigned_fact(f, b.key) or filtered_out(f) for f in fs):
             good.add(bi)
     from expr import edge_facts, reachable_avoiding
     good_edges = set()
     for s_ in b.live_blocks():
         for (tgt, fs) in edge_facts(ctx, s_):
-            if any(is_empty_fact(f, b.key) or unassigned_fact(f, b.key) for f in fs):
+            if any(is_empty_fact(f, b.key) or unassigned_fact(f, b.key) or filtered_out(f) for f in fs):
                 good_edges.add((s_, tgt))
     for (bi, t) in lits:
-        reach = reachable_avoiding(b, 0, good, good_edges)
+        g2, e2 = set(good), set(good_edges)
+        if bi in selectors:
+            # blocks and edges on which the selecting Option is known to be Some: the literal is
+            # not what gets stored there
+            sel = selectors[bi]
+            for x in b.live_blocks():
+                if any(_says_some(f, sel) for f in facts_at(ctx, x)):
+                    g2.add(x)
+            for s_ in b.live_blocks():
+                for (tgt, fs) in edge_facts(ctx, s_):
+                    if any(_says_some(f, sel) for f in fs):
+                        e2.add((s_, tgt))
+        reach = reachable_avoiding(b, 0, g2, e2)
         ok = bi not in reach if bi not in merged else not (merged[bi] & reach)
         # the "assigned" edge of the lookup must diverge: no path from the lookup's other edge to the store
         R.check("R-GUARD", b.label(), ok,
@@ -160,6 +197,27 @@ def r_literal_guard(F, R):
     else:
         R.check("R-CODEC", b.label(), all(verdicts), construct="dictionary hit stores exactly the one tag byte",
                 where=b.where(), detail="hit stores: %s" % [show(a)[:100] for (_, _, a) in hits])
+
+
+def _strip_opt(t):
+    """the Option underneath value-preserving views (`as_ref`, `as_deref`, `map`, `copied`, ...):
+    they are Some exactly when it is"""
+    from expr import nobb
+    t = nobb(t)
+    while t[0] == "call" and t[1][0] == "Option" and t[1][1] in ("as_ref", "as_deref", "as_mut", "map", "copied", "cloned", "inspect") \
+            and t[2] and not t[3]:
+        t = nobb(t[2][0])
+    return t
+
+
+def _says_some(f, sel):
+    """fact f says the Option `sel` (stripped) is Some"""
+    if f[0] == "truthy" and f[1][0] == "call" and f[1][1][0] == "Option" and f[1][2]:
+        if _strip_opt(f[1][2][0]) == sel:
+            return (f[1][1][1] == "is_some" and f[2] is True) or (f[1][1][1] == "is_none" and f[2] is False)
+    if f[0] == "variant" and isinstance(f[1], tuple) and _strip_opt(f[1]) == sel:
+        return f[2] == "1" or (isinstance(f[2], tuple) and f[2][0] == "not" and "0" in f[2][1])
+    return False
 
 
 def literal_selection_blocks(ctx, op, origin, _seen=None):
@@ -464,6 +522,16 @@ def r_tags(F, R):
     pushes = [(bi, t) for (bi, t) in b.calls() if callee_tag(t.get("callee")) == ("BytesMap", "push")]
     somes = [(bi, t) for (bi, t) in pushes if operand_tree(ctx, t["args"][1])[1] == "Option::Some"]
     nones = [(bi, t) for (bi, t) in pushes if (bi, t) not in somes]
+    unknown = [(bi, t) for (bi, t) in nones if not (operand_tree(ctx, t["args"][1])[0] == "agg" and
+                                                     operand_tree(ctx, t["args"][1])[1] == "Option::None")]
+    R.floor("R-TAGS", "table writes in new_from (inserts + pushes)", len(inserts) + len(pushes), 3)
+    if unknown and inserts:
+        # one push shared by the assigned and the reserved case (`decode.push(entry.as_deref())`):
+        # which table entry belongs to which tag is then a property of the value, not of the path
+        R.undecided_site("R-TAGS", b.label(), "the reader table is written by a push whose value is not a plain Some(..)/None "
+                         "(%s): alignment of tags and table positions is not decided" %
+                         show(operand_tree(ctx, unknown[0][1]["args"][1]))[:100])
+        return
     ok = len(inserts) == 1 and len(somes) == 1 and len(nones) >= 1
     why = []
     if ok:
@@ -670,3 +738,83 @@ def r_update_weight(F, R):
         R.check("R-WEIGHT", b.label(), enters, construct="the count parameter enters the summary",
                 where=b.where(), detail="count flows into a store or call on the summary: %s" % enters)
     R.floor("R-WEIGHT", "MisraGries weighted update", n, 1)
+
+
+# ---------------------------------------------------------------------------------------------
+# R-DECODE: decode hands its argument back only for an empty input or an unassigned first byte
+
+
+def _lookup_chain_none(F, f, key):
+    """fact f says `bytes.first().and_then(|tag| self.decode.get(tag))` (or the filter form) is
+    None: the input is empty or its first byte has no entry"""
+    from expr import apply_fn, nobb, tproj
+    param = ("place", key, ("arg", 2), ())
+    if f[0] != "variant" or not isinstance(f[1], tuple) or f[1][0] != "call" or len(f[1][2]) != 2 or f[1][3]:
+        return False
+    if not (f[2] == "0" or (isinstance(f[2], tuple) and f[2][0] == "not" and "1" in f[2][1])):
+        return False
+    src = nobb(f[1][2][0])
+    if not (src[0] == "call" and src[1] in (("slice", "first"), ("slice", "get")) and src[2] and src[2][0] == param):
+        return False
+    res = apply_fn(F, f[1][2][1], [tproj(f[1][2][0], ("v:Some", "f:0"))])
+    if len(res) != 1:
+        return False
+    r = next(iter(res))
+    if f[1][1] == ("Option", "and_then"):
+        return unassigned_fact(("variant", r, "0"), key)
+    if f[1][1] == ("Option", "filter"):
+        return unassigned_fact(("truthy", r, False), key)
+    return False
+
+
+def r_decode_total(F, R):
+    """`DictionaryCodec::decode` maps a stored slice back to what was pushed: the table entry of
+    its first byte when the reader's table has one, the slice itself otherwise.  Every way of
+    returning the argument unchanged must therefore have established that the input is empty or
+    that the reader's table has no entry for the first byte -- a shortcut that hands the argument
+    back on any other ground returns a tag byte where an entry was pushed."""
+    from expr import edge_facts, reachable_avoiding, nobb
+    b = codec_body(F, "decode")
+    if b is None:
+        R.floor("R-DECODE", "DictionaryCodec::decode", 0, 1)
+        return
+    R.saw(b)
+    ctx = Ctx(b)
+    param = ("place", b.key, ("arg", 2), ())
+
+    def admits(f):
+        return is_empty_fact(f, b.key) or unassigned_fact(f, b.key) or _lookup_chain_none(F, f, b.key)
+    good = {bi for bi in b.live_blocks() if any(admits(f) for f in facts_at(ctx, bi))}
+    good_edges = set()
+    for s_ in b.live_blocks():
+        for (tgt, fs) in edge_facts(ctx, s_):
+            if any(admits(f) for f in fs):
+                good_edges.add((s_, tgt))
+    reach = reachable_avoiding(b, 0, good, good_edges)
+    n = 0
+    for bi in sorted(b.live_blocks()):
+        for si, st in enumerate(b.blocks[bi]["stmts"]):
+            if not (st["k"] == "assign" and st["place"]["l"] == 0 and not st["place"]["p"]):
+                continue
+            val = nobb(trees(ctx, ctx.org.rvalue(st["rv"], bi, si)))
+            if val == param:
+                n += 1
+                R.check("R-DECODE", b.label(), bi not in reach, construct="the argument is returned unchanged only when empty or unassigned",
+                        where="%s:%s" % (b.file, st["line"]),
+                        detail="guarding blocks %s" % sorted(good) if bi not in reach else
+                        "this return of the argument can be reached without having seen an empty input or an unassigned "
+                        "first byte in the reader's table: an input that is a dictionary tag is handed back as the tag byte")
+    # value-level selection: `lookup.unwrap_or(bytes)` hands the argument back exactly when the lookup is None
+    for (bi, t) in b.calls():
+        tag = callee_tag(t.get("callee"))
+        if tag in (("Option", "unwrap_or"), ("Option", "map_or")) and len(t["args"]) >= 2 and \
+                nobb(operand_tree(ctx, t["args"][1])) == param:
+            n += 1
+            opt = _strip_opt(operand_tree(ctx, t["args"][0]))
+            sel_ok = unassigned_fact(("variant", opt, "0"), b.key) or _lookup_chain_none(F, ("variant", opt, "0"), b.key)
+            if sel_ok:
+                R.check("R-DECODE", b.label(), True, construct="the argument is returned unchanged only when empty or unassigned",
+                        where="%s:%s" % (b.file, t["line"]), detail="fallback of the table lookup itself")
+            else:
+                R.undecided_site("R-DECODE", b.label(), "the argument is the fallback of %s, which is not recognisably the reader's table lookup" % show(opt)[:80])
+    R.floor("R-DECODE", "returns of the argument in decode", n, 1)
